@@ -23,6 +23,12 @@ func VerifC04_ResumeOffset() {
 	w, err := r.PushBlobChunked(vctx, "a/b", verifInt("chunkSize"))
 	verifAssert(err == nil, "upload-starts")
 	id := w.ID()
+	if verifBool("uploadNeverStarted") {
+		// the registry also accepts resuming an upload id it has no bytes for (never
+		// started, or started in another repository): its size is 0
+		id = "bmV2ZXItc3RhcnRlZA"
+		first = nil
+	}
 	n, err := w.Write(first)
 	verifAssert(err == nil && n == len(first), "first-write")
 	w.Close()
